@@ -164,4 +164,25 @@ def run(ck):
                              {"crystal": nm, "cutoff": cut, "kT": kT, "thermo": {k: np.asarray(v).tolist() for k, v in th.items()},
                               "transformed": {k: np.asarray(v).tolist() for k, v in t2.items()}, "kT2": kT2, "factor": factor,
                               "base": [b.tolist() for b in base], "got": [g.tolist() for g in got]}, key="c04-vm-" + vn)
+        # the same invariances on the scaled free energies handed to Lij DIRECTLY (no renormalisation by preene2betafree):
+        # a common shift of a species' site and transition-state values must not matter whatever the zero of the arrays is
+        bFV, bFS, bFSV, bFT0, bFT1, bFT2 = [np.array(x, dtype=float) for x in d.preene2betafree(kT, **th)]
+        c = rng.uniform(-1.5, 1.5); lnl = np.log(lam2)
+        direct = [("direct-shift-vacancy", (bFV + c, bFS, bFSV, bFT0 + c, bFT1 + c, bFT2 + c), 1.0, 1e-9),
+                  ("direct-shift-solute", (bFV, bFS + c, bFSV, bFT0, bFT1 + c, bFT2 + c), 1.0, 1e-9),
+                  ("direct-rate-scale", (bFV, bFS, bFSV, bFT0 - lnl, bFT1 - lnl, bFT2 - lnl), lam2, 1e-7)]
+        for vn, a2, factor, tol in direct:
+            try:
+                got = [np.array(x) for x in d.Lij(*a2)]
+            except Exception as e:
+                ck.violation("Lij raised %r under %s" % (e, vn), {"crystal": nm, "betaF": [np.asarray(x).tolist() for x in a2]}, key="c04-raise"); continue
+            nvm += 1
+            scale = np.abs(base[0]).max()
+            err = max(np.abs(g - factor * b).max() for g, b in zip(got, base)) / (scale * max(factor, 1.0))
+            ck.case(key=("vm", vn, nm, [np.asarray(v).round(10).tolist() for v in th.values()], c, lam2), nontrivial=True, kind="vm:" + vn)
+            if err > tol:
+                ck.violation("vacancy-mediated coefficients (Lij called directly) not %s-invariant/covariant: %.3g relative" % (vn, err),
+                             {"crystal": nm, "cutoff": cut, "shift": c, "factor": factor, "betaF": [np.asarray(x).tolist() for x in (bFV, bFS, bFSV, bFT0, bFT1, bFT2)],
+                              "betaF_transformed": [np.asarray(x).tolist() for x in a2], "base": [b.tolist() for b in base], "got": [g.tolist() for g in got]},
+                             key="c04-vm-" + vn)
     ck.extra["vm_cases"] = nvm
